@@ -44,6 +44,7 @@ ClientInit(side, mode, appid) ==
     allocLen |-> 0, inputNameplates |-> {}, inputNp |-> "-", wordlist |-> FALSE, helper |-> FALSE,
     events |-> <<>>, fired |-> {}, closedCalls |-> 0, apiClosed |-> FALSE,
     reent |-> "-", reentFired |-> FALSE,
+    status |-> [conn |-> "connecting", key |-> "nokey", code |-> "nocode"],   \* WormholeStatus as last reported (create() starts the first attempt)
     errs |-> <<>>, raised |-> "", logged |-> <<>>, stack |-> <<>>, tx |-> <<>>, lastRet |-> "-" ]
 
 Push(c, frames) == [c EXCEPT !.stack = frames \o c.stack]
@@ -104,7 +105,9 @@ Effect(c, m, n, a) ==
     [] m = "B" /\ n = "D_received_dilate" -> c
     [] m = "B" /\ n = "W_close_with_error" -> WClosed([c EXCEPT !.result = a.x], a.x)
     [] m = "B" /\ n = "W_closed"          -> WClosed(c, c.result)
-    [] m = "B" /\ n \in {"send_status_peer_key", "send_status_confirmed_key", "send_status_closed"} -> c
+    [] m = "B" /\ n = "send_status_peer_key"      -> [c EXCEPT !.status.key = "alleged"]
+    [] m = "B" /\ n = "send_status_confirmed_key" -> [c EXCEPT !.status.key = "confirmed"]
+    [] m = "B" /\ n = "send_status_closed"        -> [c EXCEPT !.status.conn = "closed"]
        \* ---------------- Nameplate
     [] m = "N" /\ n = "record_nameplate"  -> [c EXCEPT !.nameplate = a.x]
     [] m = "N" /\ n = "record_nameplate_and_RC_tx_claim" -> Tx([c EXCEPT !.nameplate = a.x], TxFrame("claim", a.x, "-", NoBody))
@@ -114,7 +117,8 @@ Effect(c, m, n, a) ==
     [] m = "N" /\ n = "RC_tx_release"     -> IF c.nameplate = "-" THEN Raise(c, "assert:N.RC_tx_release:_nameplate")
                                              ELSE Tx(c, TxFrame("release", c.nameplate, "-", NoBody))
     [] m = "N" /\ n = "T_nameplate_done"  -> Push(c, <<In("T", "nameplate_done", NoArgs)>>)
-    [] m = "N" /\ n \in {"send_status_code_allocated", "send_status_code_consumed"} -> c
+    [] m = "N" /\ n = "send_status_code_allocated" -> [c EXCEPT !.status.code = "allocated"]
+    [] m = "N" /\ n = "send_status_code_consumed"  -> [c EXCEPT !.status.code = "consumed"]
        \* ---------------- Mailbox
     [] m = "M" /\ n = "record_mailbox"    -> [c EXCEPT !.mailbox = a.x]
     [] m = "M" /\ n = "RC_tx_open"        -> IF c.mailbox = "-" THEN Raise(c, "assert:M.RC_tx_open:_mailbox")
@@ -250,7 +254,7 @@ Dispatch(c, m, n, a) ==
     [] m = "N" /\ n = "set_nameplate" ->
             IF ~ValidNameplate(a.x) THEN Raise(c, "doc:KeyFormatError") ELSE Push(c, <<In("N", "_set_nameplate", a)>>)
     [] m = "API" /\ n = "raise"    -> Raise(c, a.x)
-    [] m = "RC" /\ n = "ws_open"    -> Tx(c, TxFrame("bind", c.side, c.appid, NoBody))
+    [] m = "RC" /\ n = "ws_open"    -> Tx([c EXCEPT !.status.conn = "connected"], TxFrame("bind", c.side, c.appid, NoBody))
     [] m = "RC" /\ n = "rx_message" -> Push(c, <<Call("M", "rx_message", a)>>)
     [] m = "W" /\ n = "got_welcome" -> OneShot(c, "welcome", "ok")
     [] m = "RC" /\ n = "stop"       ->      \* ClientService.stopService(): not connected => Deferred already fired
